@@ -189,13 +189,20 @@ func (b *builder) newDS() ipld.DAGService {
 // ---------- enumeration of all trees ----------
 
 func allNodes(depth int, names []string, files, dirVariants int) []*T {
+	return allNodesV(depth, names, files, func(int) int { return dirVariants })
+}
+
+// allNodesV: dirVariants(d) = number of directory Data variants for a directory
+// that may still have d levels below it.
+func allNodesV(depth int, names []string, files int, dirVariantsAt func(depth int) int) []*T {
+	dirVariants := dirVariantsAt(depth)
 	var out []*T
 	for v := 0; v < files; v++ {
 		out = append(out, file(v))
 	}
 	var sub []*T
 	if depth > 0 {
-		sub = allNodes(depth-1, names, files, dirVariants)
+		sub = allNodesV(depth-1, names, files, dirVariantsAt)
 	}
 	for dv := 0; dv < dirVariants; dv++ {
 		if depth == 0 {
@@ -606,8 +613,17 @@ func families(r *eng.Run) []family {
 	if th {
 		fams = append(fams, family{"edits-2x2", false, v2, v2})
 		fams = append(fams, family{"all-d2-ab-cidv1", true, all2, all2})
-		meta2 := dirsOnly(allNodes(2, ab, 1, 2))
+		// depth 2, one file kind; empty leaf-level directories only in the plain variant
+		meta2 := dirsOnly(allNodesV(2, ab, 1, func(d int) int {
+			if d == 0 {
+				return 1
+			}
+			return 2
+		}))
 		fams = append(fams, family{"meta-d2-ab-1file", false, meta2, meta2})
+		// a single name, depth 3: long chains of directories with/without metadata
+		meta3 := dirsOnly(allNodes(3, []string{"a"}, 2, 2))
+		fams = append(fams, family{"meta-d3-a", false, meta3, meta3})
 	} else {
 		fams = append(fams, family{"edits-1x2", false, v1, v2})
 		fams = append(fams, family{"edits-2x1", false, v2, v1})
